@@ -232,6 +232,12 @@ def h_device(shape):
             common = dict(name="dev", dimensions=2, rydberg_level=70, min_atom_distance=inp.real("mindist", 0, 10),
                           channel_objects=(g, l), channel_ids=("glob", "loc"), dmm_objects=(dmm,) if "dmm" in shape["opt"] else (),
                           supports_slm_mask=("dmm" in shape["opt"]))
+            if "dmm12" in shape["opt"]:
+                # many DMMs, all different: their order is their identity (dmm_0 ... dmm_11)
+                import dataclasses as _dc
+
+                common["dmm_objects"] = tuple(_dc.replace(dmm, bottom_detuning=-float(10 + 7 * i)) for i in range(12))
+                common["supports_slm_mask"] = True
             if "seqdur" in shape["opt"]:
                 common["max_sequence_duration"] = inp.int("seqdur", 1, 10**6)
             if "runs" in shape["opt"]:
@@ -361,7 +367,7 @@ def kernels(tier):
         ks.append(("simconfig", dict(params=[], eff=n_eff)))
     ks.append(("simconfig", dict(params=["dephasing_rate"], eff=2)))
     dev_opts = [[], ["mod"], ["mod", "pjt", "minavg"], ["eom"], ["eom", "eombuf", "eom2", "eomopt"], ["dmm"], ["dmm", "total", "mod"],
-                ["maxt", "seqdur", "runs", "filling"], ["atoms", "radius", "reuse", "propdir"], ["eom", "eomopt"], ["eom", "eom2"]]
+                ["maxt", "seqdur", "runs", "filling"], ["atoms", "radius", "reuse", "propdir"], ["eom", "eomopt"], ["eom", "eom2"], ["dmm", "dmm12"]]
     for opt in dev_opts:
         ks.append(("device", dict(opt=opt, virtual=True)))
     for opt in ([], ["eom", "eombuf"], ["dmm", "total", "seqdur", "runs", "maxt", "mod"]):
@@ -460,8 +466,16 @@ def h_config(shape):
             cfg_kw["interaction_matrix"] = [[0.0, x], [x, 0.0]]
         if shape.get("prefer") is not None:
             cfg_kw["prefer_device_noise_model"] = shape["prefer"]
+        extra_obs = []
         if shape.get("init"):
-            cfg_kw["initial_state"] = StateRepr.from_state_amplitudes(eigenstates=("r", "g"), amplitudes={"rg": 1.0})
+            st = StateRepr.from_state_amplitudes(eigenstates=("r", "g"), amplitudes={"rg": 1.0})
+            cfg_kw["initial_state"] = st
+            # objects of the same class never share state: building another state does not change this one
+            other = StateRepr.from_state_amplitudes(eigenstates=("r", "g"), amplitudes={"rgr": 1.0})
+            extra_obs.append(("k3:state_repr_independent", st.n_qudits == 2 and other.n_qudits == 3))
+        if shape.get("extra"):
+            # backend-specific options (not part of the standard set), one of them explicitly None
+            cfg_kw.update(custom_cutoff=inp.real("cutoff", 0, 1), custom_log_file=None, custom_level=3)
         try:
             cfg = EmulationConfig(**cfg_kw)
         except (ValueError, TypeError):
@@ -472,7 +486,7 @@ def h_config(shape):
         except Exception:  # noqa: BLE001 - a valid config must serialise and its document must decode
             return [("k3:config_roundtrip_completes", False)]
         a, b = to_plain(cfg._backend_options), to_plain(cfg2._backend_options)
-        obs = [("k3:config_same_keys", set(a) == set(b))]
+        obs = extra_obs + [("k3:config_same_keys", set(a) == set(b))]
         for k in a:
             if k in b:
                 obs.append(("k3:config_field:" + k, l2.snap_equal(a[k], b[k])))
@@ -493,6 +507,7 @@ def kernels(tier):
     ks.append(("config", dict(obs=["occupation"], times=[False], noise=True, interaction=True, prefer=True)))
     ks.append(("config", dict(obs=["fidelity", "bitstrings"], times=[True, False], init=True, shots=7, prefer=False)))
     ks.append(("config", dict(obs=["bitstrings"], times=[True], noise="eff")))
+    ks.append(("config", dict(obs=["occupation"], times=[True], extra=True)))
     return ks
 
 
